@@ -546,7 +546,7 @@ pub fn run(ctx: &Ctx, id: &str) -> i32 {
     };
     let n_walks = ctx.by(4_000usize, 200_000usize);
     report.rule = if id == "C07" {
-        format!("call histories of begin/commit/cancel over tokens {{a,b,c}} (tokens introduced in this order: symmetry), model-guided bounded-exhaustive: every history of exactly {depth} calls with every terminal outcome (reservation: success / abort / missing receipt / abort after a status information that already carried a receipt number; reversal: completed / abort / abort B8 echoing the request's receipt number) branched where the model accepts the call, x transactions_max_num 0..3; then a probe suffix cancel(a), cancel(b), cancel(c); plus {n_walks} random walks to depth 40 with empty / 99-byte / non-ASCII tokens and max 0..4. Additionally: card reads interleaved with the transaction calls (the card's status information carrying an amount, a receipt number equal to an open transaction's, and a maximum pre-authorisation amount around the configured one: no effect on the tokens allowed), every abort code 0..255 for a reservation while another transaction is open, every abort code 0..255 x {{no receipt, own receipt echoed, FFFF, another receipt}} for commit and cancel with one and two open transactions, and a link fault (close/garbage/NACK/foreign/silence) at every packet of the reservation exchange followed by commit/cancel (the token must map to the receipt of the reservation that completed). Oracle: sequential client model (D.3) for the result class, 'refused => no request and no connection', 'commit/cancel carry the receipt number the terminal issued for that token', and the hook snapshot of the client's map after every call. Non-trivial = history with at least one accepted call; distinct by hash of (history, max).")
+        format!("call histories of begin/commit/cancel over tokens {{a,b,c}} (tokens introduced in this order: symmetry), model-guided bounded-exhaustive: every history of exactly {depth} calls with every terminal outcome (reservation: success / abort / missing receipt / abort after a status information that already carried a receipt number; reversal: completed / abort / abort B8 echoing the request's receipt number) branched where the model accepts the call, x transactions_max_num 0..3; then a probe suffix cancel(a), cancel(b), cancel(c); plus {n_walks} random walks to depth 40 with empty / 99-byte / non-ASCII tokens and max 0..4. Additionally: card reads interleaved with the transaction calls (the card's status information carrying an amount, a receipt number equal to an open transaction's, and a maximum pre-authorisation amount around the configured one: no effect on the tokens allowed), every abort code 0..255 for a reservation while another transaction is open, every abort code 0..255 x {{no receipt, own receipt echoed, FFFF, another receipt}} for commit and cancel with one and two open transactions, and a link fault (close/garbage/NACK/foreign/silence/reply-then-close) at every packet of the reservation exchange followed by commit/cancel (the token must map to the receipt of the reservation that completed). Oracle: sequential client model (D.3) for the result class, 'refused => no request and no connection', 'commit/cancel carry the receipt number the terminal issued for that token', and the hook snapshot of the client's map after every call. Non-trivial = history with at least one accepted call; distinct by hash of (history, max).")
     } else {
         format!("the C07 histories (exactly {depth} calls, max 1..3) and {n_walks} random walks, each run under a clean-up behaviour chosen per scenario: pending query reports {{no receipt field, FFFF, a dangling receipt}}, reversal of the dangling receipt {{completes, aborts}}, end-of-day {{completion, abort A0, every abort code 00..FF in turn, aborts (B8, A0, B4, ...) that also carry a receipt number}}, with intermediate/print packets inside the end-of-day exchange. Oracle (temporal checker over the request log per call): a commit/cancel the terminal completed that leaves no token open is followed by exactly PendingQuery -> PreAuthReversal(d) iff d reported -> EndOfDay(password); result Ok on completion/A0, error otherwise; with tokens remaining no PendingQuery/EndOfDay. Non-trivial = history containing at least one completed commit/cancel; distinct by hash of (history, max, clean-up behaviour).")
     };
@@ -688,7 +688,7 @@ pub fn run(ctx: &Ctx, id: &str) -> i32 {
         // a link fault at every packet of the reservation exchange: the client re-sends the reservation, the terminal
         // issues another receipt number; begin must record the receipt of the reservation that completed
         if id == "C07" {
-            for kind in [FaultKind::Close, FaultKind::Garbage, FaultKind::Nack, FaultKind::Foreign, FaultKind::Silence] {
+            for kind in [FaultKind::Close, FaultKind::Garbage, FaultKind::Nack, FaultKind::Foreign, FaultKind::Silence, FaultKind::CloseAfter] {
                 for p in (0..5usize).filter(|p| (*p + format!("{kind:?}").len()) % threads == shard % threads || threads > 25) {
                     let cfg = ClientCfg { max_tx: 1, ..ClientCfg::default() };
                     let mut sc = Scenario { cfg: cfg.clone(), ..Scenario::default() };
